@@ -244,7 +244,8 @@ def run(chk: common.Check):
               "(small multi-conformation files, a protein, random fragments) x options (-d, -c, -i) x parameter files (shared determinants, "
               "no removal of penalised groups, common charge centre): recorded operations replayed bit for bit; model reports dirty groups and "
               "average divisors. Search: re-summation of every group (all conformations + AVR) and the written determinant table / summary. "
-              "distinct = (case, conformation, group)"),
+              "distinct = (case, conformation, group)"
+              " Added in rounds 4-6: chains whose groups are not contiguous in record order, ligands on chains of their own, a 4DFR ensemble discarding different members of a coupled system."),
         assumptions=["theorems over R: the float total equals the real sum up to rounding (search tolerance 1e-9)",
                      "text rendering (format) is checked by the search, not modelled"],
         trusted=["tools/vlib/detstrace.py recorder (wraps propka methods at run time)", "model/Dets.v validated by bit-exact replay", "stdlib real axioms"])
